@@ -39,6 +39,8 @@ type HV struct {
 	frontier string
 	except   []string
 	guard    string
+	stRef    string // hvStore of a single location: the reference written ...
+	stVal    string // ... and the value (read-over-write shortcut)
 }
 
 // State is the symbolic store: values of source variables (naive-form cells)
@@ -397,6 +399,9 @@ func (g *Gen) instFrames(hv *HV, r string) {
 
 func (g *Gen) readHeap(st *State, name, ref string) string {
 	hv := g.hv(st, name)
+	if ref != "" && hv.kind == hvStore && hv.stRef == ref && hv.stVal != "" {
+		return hv.stVal // reading back what was just written to this very location
+	}
 	if ref != "" && strings.HasPrefix(g.heapSort(name), "(Array") {
 		g.instFrames(hv, ref)
 		if ref != "RK" {
@@ -416,7 +421,11 @@ func (g *Gen) writeHeap(st *State, name, ref, val string) {
 	} else {
 		t = g.s.def(name, T{app("store", hv.term, ref, val), hv.sort})
 	}
-	st.heap[name] = g.newHV(name, hv.sort, t.S, hvStore, hv)
+	nv := g.newHV(name, hv.sort, t.S, hvStore, hv)
+	if ref != "" {
+		nv.stRef, nv.stVal = ref, val
+	}
+	st.heap[name] = nv
 }
 
 func (g *Gen) setHeap(st *State, name string, hv *HV) {
